@@ -2,6 +2,7 @@ package main
 
 import (
 	"fmt"
+	"math"
 	"math/rand"
 	"reflect"
 	"sort"
@@ -26,7 +27,7 @@ func c05Mutate(r *rand.Rand, o database.SearchOptions, n int, words []string) (d
 		for k, v := range o.ContextBoosts {
 			p.ContextBoosts[k] = v
 		}
-		p.ContextBoosts[words[r.Intn(len(words))]] = []float64{1.5, 2, 3, 10}[r.Intn(4)]
+		p.ContextBoosts[words[r.Intn(len(words))]] = []float64{1.5, 2, 3, 10, math.Inf(1)}[r.Intn(5)]
 		return p, "ContextBoosts"
 	case 2:
 		p.PipelineOnly = !o.PipelineOnly
